@@ -670,7 +670,7 @@ func (ctx *Context) evaluate() {
 				if ctx.Config.defaultDiceSideExprCacheFunc != nil {
 					fd, ok := ctx.Config.defaultDiceSideExprCacheFunc.ReadFunctionData()
 					if ok {
-						if fd.Expr == ctx.Config.DefaultDiceSideExpr {
+						if fd.Expr == ctx.Config.DefaultDiceSideExpr && ctx.Config.defaultDiceSideExprCacheKey == ctx.Config.parseSwitches() {
 							val = ctx.Config.defaultDiceSideExprCacheFunc
 						}
 					}
@@ -685,6 +685,7 @@ func (ctx *Context) evaluate() {
 						codeIndex: 0,
 					})
 					ctx.Config.defaultDiceSideExprCacheFunc = val
+					ctx.Config.defaultDiceSideExprCacheKey = ctx.Config.parseSwitches()
 				}
 
 				v := val.FuncInvoke(ctx, nil)
